@@ -40,7 +40,10 @@ def evalTextX (cc : CharClass) (budget : Nat) (src : Text) : String :=
   | .error e => (Obs.error e []).show ++ " # steps=0 halt=0 gc=0: live=0"
   | .ok ast =>
     match compileProgram ast with
-    | .error e => (Obs.error e []).show ++ " # steps=0 halt=0 gc=0: live=0"
+    | .error e =>
+      -- names resolve but an operand does not fit its width (DESIGN 4.3 U7: size limits): flagged like the machine's limits
+      let lim := match resolveProgram ast with | .ok _ => " limit=1" | .error _ => ""
+      (Obs.error e []).show ++ " # steps=0 halt=0 gc=0: live=0" ++ lim
     | .ok (_, bc) =>
       let (o, st) := runInstr bc.code budget (VM.start {} bc) {}
       let gcs := ",".intercalate (st.gcs.toList.map fun p => toString p.1 ++ "/" ++ toString p.2)
